@@ -1826,6 +1826,35 @@ def h_th_resolution(g):
               'disjunction-as-unit')
 
 
+@hostile('th_resolution')
+def h_th_resolution_pivot_returns(g):
+    """a chain of three or four premises in which a pivot that was already resolved away comes BACK with the same
+    polarity in a later premise: a|b , ~a|c , ~c|a  resolves to  b|a, not to b (variants: more literals, the returning
+    pivot in a fourth premise, other premise orders)"""
+    from kernel.term import Or, Not
+    from kernel.thm import Thm
+    r = g.rng
+    a, b, c, d, e = r.sample(g.bools, 5)
+    cls = [[a, b], [Not(a), c], [Not(c), a]]
+    want_missing = a
+    claim = [b]
+    v = r.randrange(4)
+    if v == 1:
+        cls = [[a, b, d], [Not(a), c], [Not(c), a, e]]
+        claim = [b, d, e]
+    elif v == 2:
+        cls = [[a, b], [Not(a), c], [Not(c), d], [Not(d), a]]
+        claim = [b]
+    elif v == 3:
+        cls = [[Not(a), b], [a, c], [Not(c), Not(a)]]
+        claim = [b]
+    prems = []
+    for cl_ in cls:
+        t = Or(*cl_) if len(cl_) > 1 else cl_[0]
+        prems.append(Thm(t, t))
+    return _h(inst('th_resolution', claim, prems, sizes=[len(x) for x in cls]), 'resolved-pivot-returns-in-a-later-premise')
+
+
 def make_hostile(g, rule):
     fns = HOSTILE.get(rule)
     if not fns:
